@@ -139,10 +139,11 @@ Definition defer_cond (c : conn) (t : Z) : bool :=
 
 (* Where the client raises its request-outstanding flag (_auth_request_sent):
    false = in send_userauth_request, when the request is HANDED to send_packet - also when send_packet only queues
-           it because a key exchange is in progress (the code as it is);
-   true  = in send_packet, when a USERAUTH_REQUEST is actually put on the wire (proposed repair C06-3).
+           it because a key exchange is in progress (the code before 2acdd0f);
+   true  = in send_packet, when a USERAUTH_REQUEST is actually put on the wire (the code since repair 2acdd0f, C06-3);
+   false was the code before it.
    A constant of the model, not detected from behaviour; every lemma below is proved for both values. *)
-Definition request_flag_on_wire : bool := false.
+Definition request_flag_on_wire : bool := true.  (* HEAD since 2acdd0f: the flag is raised when the request is written *)
 
 Definition send_packet (c : conn) (t a : Z) : conn :=
   if defer_cond c t then set_deferred (deferred c ++ [t]) c
